@@ -10,14 +10,17 @@ MACHK = os.path.join(VERIF, "ocaml", "machk")
 
 def ensure_machk():
     """(re)build the extracted checker if missing or older than its sources"""
-    srcs = [os.path.join(COQ, "Extract", "Extract.v"), os.path.join(VERIF, "ocaml", "machk.ml")] + \
+    srcs = [os.path.join(COQ, "Extract", "Extract.v"), os.path.join(VERIF, "ocaml", "machk.ml"), os.path.join(VERIF, "ocaml", "crun.ml"),
+            os.path.join(COQ, "Expr", "CArith.v"), os.path.join(COQ, "CSkel", "Store.v"), os.path.join(COQ, "CSkel", "Run.v")] + \
            [os.path.join(COQ, "Machine", f) for f in ("Dfa.v", "Sem.v", "NoSpin.v", "Bisim.v", "Search.v", "BBisim.v") if os.path.exists(os.path.join(COQ, "Machine", f))]
-    if os.path.exists(MACHK) and all(os.path.getmtime(MACHK) >= os.path.getmtime(s) for s in srcs):
+    CRUNP = os.path.join(VERIF, "ocaml", "crun")
+    fresh = lambda: os.path.exists(MACHK) and os.path.exists(CRUNP) and all(min(os.path.getmtime(MACHK), os.path.getmtime(CRUNP)) >= os.path.getmtime(s) for s in srcs)
+    if fresh():
         return None
     with common.Lock("ocaml"):
-        if os.path.exists(MACHK) and all(os.path.getmtime(MACHK) >= os.path.getmtime(s) for s in srcs):
+        if fresh():
             return None
-        rc, out = common.coq_make(["Machine/Search.vo"] + (["Machine/BBisim.vo"] if os.path.exists(os.path.join(COQ, "Machine", "BBisim.v")) else []))
+        rc, out = common.coq_make(["Machine/Search.vo", "CSkel/Run.vo"] + (["Machine/BBisim.vo"] if os.path.exists(os.path.join(COQ, "Machine", "BBisim.v")) else []))
         if rc != 0:
             return "coq build failed: " + out[-1500:]
         gen = os.path.join(VERIF, "ocaml", "gen")
@@ -29,6 +32,10 @@ def ensure_machk():
         rc, out = sh("ocamlfind ocamlopt -O3 -package str machine.mli machine.ml machk.ml -o ../machk", cwd=gen, timeout=600)
         if rc != 0:
             return "ocaml build failed: " + out[-1500:]
+        shutil.copy(os.path.join(VERIF, "ocaml", "crun.ml"), gen)
+        rc, out = sh("ocamlfind ocamlopt -O3 -package str machine.mli machine.ml crun.ml -o ../crun", cwd=gen, timeout=600)
+        if rc != 0:
+            return "ocaml build (crun) failed: " + out[-1500:]
     return None
 
 
